@@ -35,7 +35,7 @@ Definition harmless (r : row) : bool :=
       negb (String.eqb k "import") &&
       negb (String.eqb k "fmt-pointer") &&
       negb (String.eqb k "extcall" && (prefix_s "time." d || prefix_s "rand." d)) &&
-      negb (String.eqb k "pkgvar-write" && negb (String.eqb d "ee inside-Once.Do"))
+      negb (String.eqb k "pkgvar-write" && negb (prefix_s "inside-Once.Do " d))
   end.
 
 Definition inventory_deterministic : bool :=
